@@ -253,6 +253,7 @@ func (executor *scriptExecutor) executeWithInterpreter(
 		executor.program,
 		executor.interpret,
 	)
+	verifEvent("ExecEnd", executor.context.Location, err == nil)
 	if err != nil {
 		return nil, err
 	}
@@ -293,6 +294,7 @@ func (executor *scriptExecutor) executeWithVM(
 		sema.FunctionEntryPointName,
 		values...,
 	)
+	verifEvent("ExecEnd", executor.context.Location, err == nil)
 	if err != nil {
 		return nil, err
 	}
